@@ -108,7 +108,7 @@ func one(r *ev.Run, c *ev.Case, i int, mu *sync.Mutex, seenKeys map[string]int) 
 		ids[randCase(rng, nm)] = id
 		want[int(a)] = id
 	}
-	validity := []uint64{1, 59, 3600, 43200, 1 << 31, 315360000, 7}[rng.Intn(7)]
+	validity := []uint64{1, 59, 3600, 43200, 1 << 31, 315360000, 7, 0}[rng.Intn(8)]
 	conf := gsrig.Conf{PubKeyDir: kd.Path, Identifiers: ids, ValiditySec: validity}
 	if rng.Intn(12) == 0 {
 		conf.OmitValidity = true
@@ -151,7 +151,7 @@ func one(r *ev.Run, c *ev.Case, i int, mu *sync.Mutex, seenKeys map[string]int) 
 		if _, ok := want[warm.CAAlgo]; !ok {
 			break
 		}
-		ws := &gsrig.Signer{Agent: ag}
+		ws := &gsrig.Signer{Agent: ag, Scribble: rng.Intn(2) == 0}
 		if _, esc := gsrig.Run(gsrig.Param(warm), []gensign.Handler{rig.Handler}, ws); esc == "" && len(ws.Calls) == 1 {
 			if pk, _, _, _, pe := ssh.ParseAuthorizedKey([]byte(ws.Calls[0].Req.PublicKey)); pe == nil {
 				mu.Lock()
@@ -168,10 +168,11 @@ func one(r *ev.Run, c *ev.Case, i int, mu *sync.Mutex, seenKeys map[string]int) 
 	}
 	ag.ResetLog()
 	r.Eval(1)
+	rig.Signer.Scribble = rng.Intn(3) == 0
 	runErr, escaped := gsrig.Run(gsrig.Param(ps), []gensign.Handler{rig.Handler}, rig.Signer)
 	rec.Result = gsrig.Kind(runErr)
 	if escaped != "" {
-		r.Violation(c, "panic-escapes-run", escaped, rec)
+		r.Violation(c, gsrig.EscapeSig(escaped), escaped, rec)
 		return
 	}
 	wantID, configured := want[ps.CAAlgo]
